@@ -591,10 +591,13 @@ theorem invA_step {g : Graph} {lim : Option Nat} {s s' : St} {l : Label}
     intro w; cases w
     · rfl
     · simp [getSched, ha, hc, spawnOf]
-  | cCtxDone ha hc _ =>
+  | cCtxDone ha hc _ _ =>
     refine invA_frame hI rfl rfl ?_ (fun u => Iff.rfl) hI.chRecvNodup
     intro w; cases w
     · rfl
     · simp [getSched, ha, hc, spawnOf]
+  | extCancel _ =>
+    refine invA_frame hI rfl rfl ?_ (fun u => Iff.rfl) hI.chRecvNodup
+    intro w; cases w <;> rfl
 
 end CV.Trav
